@@ -388,7 +388,10 @@ EXTRA = {
     "C02": "ALSO: C02_every_word_is_judged (no word crashes a validator -- C04 --, so the theorems for TDT rules and unrecognised identifiers carry no `unless it crashes` "
            "escape any more); C02_cdw_layout / C02_cdw_rule / C02_cdw_elsewhere_is_invalid_data (the CDW accessors read the documented fields; [E81] EXACTLY when the user "
            "fields change with a non-zero index against the remembered CDW; a 0xF8 word anywhere but at the start of a packet's data is an invalid data word [E70]); the "
-           "catalogue has two CDW entries on calibration streams.",
+           "catalogue has two CDW entries on calibration streams. IN-SYNC COMPOSITION (Proofs/C02_insync.v): C02_in_sync_position -- a link that conforms to the ITS grammar "
+           "up to a data / TDT position of any page of any heartbeat frame (packets continued across pages included), ANY word there, ANY words behind it, ANY packets "
+           "after it: the report of `check sanity|all its` opens with the messages for that word, judged in a data state at offset packet + 64 + index * slot; "
+           "C02_in_sync_tdt_fault ([E50]) and C02_in_sync_unknown_identifier ([E991]) at that offset; C02_in_sync_example (non-vacuity on the C01 example link).",
     "C04": "ALSO (session 3): C04_fatal_lane_beyond_barrel_no_panic (defect F17, found while proving the next theorem, repaired by a fix: commit), "
            "C04_only_invalid_layer_site_reachable (EVERY mode incl. `check all its-stave`, every configuration, every packet list: a validator runs through or stops at "
            "Stave::from_feeid's site, and then a packet names layer 7 -- recorded finding F6), C04_whole_run_panics_only_for_layer_7 / C04_whole_run_outcomes (the same "
